@@ -6,9 +6,9 @@ import checks
 
 ALL = ['C%02d' % i for i in range(1, 29)]
 NA = {
- 'C01': 'HP scan/protect/retire across threads: harness over src/hp.cpp (std::sort, std::vector, thread-manager TLS) was not brought through the IR->C translator in the time available; see DESIGN.md 11',
+ 'C01': 'harness/c01_hp.cpp (real src/hp.cpp + Guard/retire) translates, validates against the g++ build and exposed the classic_scan defect (fixed: f339130), but cbmc returned no verdict within 10 min per query even for 2 objects: a solver step that does not finish cannot be claimed; see DESIGN.md 11.5',
  'C02': 'DHP: as C01, plus free-list-backed block allocators; not encoded',
- 'C03': 'exactly-once disposal needs the HP/DHP singletons encoded (see C01/C02); not encoded',
+ 'C03': 'same harness and same reason as C01 (no solver verdict within the cap); DHP not encoded',
  'C04': 'user-space RCU: gp/sh singletons with std::mutex, condition variables, signals and a disposer thread are outside what the translator stubs; not encoded',
  'C05': 'as C04',
  'C06': 'MS/Moir/Basket/Optimistic/RW/FC queues need the HP/DHP singleton (C01) or the flat-combining kernel (C23) encoded first; not encoded',
